@@ -663,6 +663,24 @@ func (c C08Case) inputs(v c08Valid, f func(in c08Input) bool) {
 			}
 		}
 	}
+	if c.Dec == "unpack" && c.Thr >= 0 {
+		// a well-formed zlib stream that inflates to FEWER bytes than the data-length field declares (to the packet id
+		// alone, or to id+payload with a larger size announced): an inconsistent compressed data length
+		var idw wire.W
+		idw.VarInt(c.Frame.ID)
+		full := append(append([]byte{}, idw.B...), c.Frame.payload()...)
+		for _, body := range [][]byte{idw.B, full} {
+			for _, extra := range []int32{1, 4, 1000} {
+				d := int32(len(body)) + extra
+				if int(d) < c.Thr || d > frame.MaxData {
+					continue
+				}
+				if !f(c08Input{b: frame.CompressedBody(body, d), class: "crafted:declared-more-than-inflated", mustErr: "inconsistent"}) {
+					return
+				}
+			}
+		}
+	}
 	for _, m := range c.Extra {
 		in := m.Apply(valid)
 		if v.hasBE && v.nbtOff != 0 {
